@@ -6,6 +6,7 @@
     nesting depth, both same-change settings. *)
 From Verif Require Import Base.Prelude Model.Merge Model.TreeMerge Model.TreeCase Model.C07.
 From Verif Require Import Proofs.TreeValue Proofs.TreeMerge Proofs.C07 Proofs.MergeIdentities.
+From Verif Require Import Model.TreeMerger Proofs.C07Sched.
 Local Open Scope Z_scope.
 
 Section Statements.
@@ -66,6 +67,16 @@ Section Statements.
     merged_tree_merge accept content_merge [[x]; b; b] = [x]
     /\ merged_tree_merge accept content_merge [b; b; [x]] = [x].
   Proof. exact (base_identity_general accept content_merge). Qed.
+
+  (** The concurrent merger (Model/TreeMerger.v: the work items ReadTrees / WrittenTrees /
+      MergedFiles of tree_merge.rs:196-329 complete in any order, given as the list of the
+      paths of the items that complete): whenever it returns, it returns the recursive
+      directory merge, whatever the schedule. *)
+  Theorem C07_schedule_independent : forall (ts : list tree) (schedule : list (list N)) trees,
+    Nat.odd (length ts) = true ->
+    run accept content_merge ts schedule = EWritten trees ->
+    trees = merge_dir_full accept content_merge ts.
+  Proof. exact (schedule_independent accept content_merge). Qed.
 
   (** merge_no_resolve (flatten + simplify) keeps the net count of every tree, hence of
       every value at every path. *)
@@ -153,7 +164,19 @@ Example C07_nonvacuous :
   /\ length m = 3%nat.
 Proof. vm_compute. repeat split. Qed.
 
+(** Two different completion orders of the same merge (sub-directory 2 before or after the
+    file merge at 1) both return, and return the same trees. *)
+Example C07_schedules_nonvacuous :
+  let ts := [nv_left; nv_base; nv_right] in
+  let s1 := [[]; [1]; [2]; [2]; [3]]%N in
+  let s2 := [[]; [3]; [2]; [1]; [2]]%N in
+  run true nv_oracle ts s1 = EWritten (merge_dir_full true nv_oracle ts)
+  /\ run true nv_oracle ts s2 = EWritten (merge_dir_full true nv_oracle ts)
+  /\ run true nv_oracle ts [[]; [1]]%N <> run true nv_oracle ts [[]; [2]]%N.
+Proof. vm_compute. repeat split. congruence. Qed.
+
 Print Assumptions C07_pathwise.
+Print Assumptions C07_schedule_independent.
 Print Assumptions C07_clash.
 Print Assumptions C07_conflict_free_iff.
 Print Assumptions C07_base_identity.
